@@ -249,3 +249,81 @@ func checkWaitTable(wt *waitTable, where string) (waiters int, maxOnKey int, err
 	}
 	return len(seen), maxOnKey, nil
 }
+
+// SimObj is a deep copy of one stored key, for comparison with a reference model.
+type SimObj struct {
+	Type      string // "string", "list", "hash", "set"
+	Str       []byte
+	List      [][]byte
+	Hash      map[string]string
+	Set       map[string]struct{}
+	ExpiresAt time.Time // maxTime (year 9999) when the key has no deadline
+	Id        uint64
+}
+
+// SimNoExpiry is the deadline stored for keys without expiry.
+func SimNoExpiry() time.Time { return maxTime }
+
+// SimDbIndexes lists the databases that currently exist in eng.
+func SimDbIndexes(eng *RedisEmu) (out []int) {
+	if eng == nil || eng.dss == nil {
+		return
+	}
+	for i := 0; i < 16; i++ {
+		if _, ok := eng.dss.dbs[i]; ok {
+			out = append(out, i)
+		}
+	}
+	return
+}
+
+// SimDumpDb deep-copies every stored key of a database, including keys whose
+// deadline has passed but whose object has not been reclaimed. Only to be
+// called while no emulator goroutine is running inside that database.
+func SimDumpDb(eng *RedisEmu, index int) map[string]SimObj {
+	out := map[string]SimObj{}
+	if eng == nil || eng.dss == nil {
+		return out
+	}
+	ds := eng.dss.dbs[index]
+	if ds == nil {
+		return out
+	}
+	for _, item := range ds.data.buckets {
+		if item == nil {
+			continue
+		}
+		sk, _ := item.value.(*storeKey)
+		if sk == nil {
+			continue
+		}
+		o := SimObj{ExpiresAt: sk.expiresAt, Id: sk.id, Type: storeKeyType(sk.flags)}
+		switch p := sk.payload.(type) {
+		case []byte:
+			o.Str = append([]byte{}, p...)
+		case *storeList:
+			for n, q := 0, p.head; q != nil && n <= p.count; n, q = n+1, q.next {
+				o.List = append(o.List, append([]byte{}, q.element...))
+			}
+		case *redisDict:
+			if sk.flags == FLAG_KEY_TYPE_SET {
+				o.Set = map[string]struct{}{}
+				for _, it := range p.buckets {
+					if it != nil {
+						o.Set[it.key] = struct{}{}
+					}
+				}
+			} else {
+				o.Hash = map[string]string{}
+				for _, it := range p.buckets {
+					if it != nil {
+						s, _ := it.value.(string)
+						o.Hash[it.key] = s
+					}
+				}
+			}
+		}
+		out[item.key] = o
+	}
+	return out
+}
